@@ -333,4 +333,25 @@ def specTexts : List (List Nat) :=
   docRows.map (fun r => 37 :: str r.spec) ++
   (docRows.filter isNumericRow).flatMap (fun r => docModifiers.map (fun m => 37 :: m.1 :: str r.spec))
 
+/-! ### a zone that has a name of its own (round 3): `DateTime<Utc>` -/
+
+/-- the `Display` text of the `Utc` zone -/
+def utcName : List Nat := str "UTC"
+
+/-- the documented text of one item for a zone-aware value whose zone shows itself as `name`: `%Z`
+prints that name ("Local time zone name"), every other item is as for the offset alone -/
+def renderItemNamed (name : List Nat) (it : Item) (y : Int) (o : Nat) (t : Time) (off : Int) : Option (List Nat) :=
+  match it with
+  | .fixed .timezoneName => some name
+  | it => renderItem it y o t off
+
+def renderItemsNamed (name : List Nat) (is : List Item) (y : Int) (o : Nat) (t : Time) (off : Int) :
+    Option (List Nat) :=
+  match is with
+  | [] => some []
+  | it :: rest =>
+    match renderItemNamed name it y o t off, renderItemsNamed name rest y o t off with
+    | some a, some b => some (a ++ b)
+    | _, _ => none
+
 end Chrono.Spec.StrftimeDoc
